@@ -563,7 +563,7 @@ inductive Spec where
   | runNamed (inner : Spec)
   /-- `lena.core.Run(None, run=g)` with `g` a generator function that maps `f` over the flow -/
   | runNone (f : Fn)
-  /-- `lena.core.Run(None, run=5)` -/
+  /-- `lena.core.Run(None, run=5)` (rejected at construction) -/
   | runNoneBad
   /-- instance of a synthetic class with the given attributes -/
   | syn (run : Attr) (call : Bool) (fill compute : Attr) (nodata : Bool)
@@ -709,18 +709,17 @@ def Spec.toElement : Spec → Except Exc (Element Value)
                         asValue := some (objValue "Run") }
   | .runNamed inner =>
     -- `Run(el, run="run")`: `callable(getattr(el, "run", None))`, else `LenaTypeError` (no conversion);
-    -- for `el is None` (the junk object) `self.run = run`, the string: an attribute that is not callable
+    -- for `el is None` (the junk object) the string "run" itself must be callable: `LenaTypeError` as well
+    -- (/repo 0ff1b62), which is what the general test gives for an object without `run`
     match Spec.toElement inner with
     | .error e => .error e
     | .ok el =>
-      if (match inner with | .junk => true | _ => false) then
-        .ok { run := .value, asValue := some (objValue "Run") }
-      else if el.run.callable then
+      if el.run.callable then
         .ok { run := .method, runDen := el.runDen, rerunDen := el.rerunDen, asValue := some (objValue "Run") }
       else .error .lenaTypeError
   | .runNone f =>
     .ok { run := .method, runDen := fun s => .ok (mapS f.call s), asValue := some (objValue "Run") }
-  | .runNoneBad => .ok { run := .value, asValue := some (objValue "Run") }
+  | .runNoneBad => .error .lenaTypeError      -- `Run(None, run=5)`: "run must be callable if el is None" (/repo 0ff1b62)
   | .syn r c f cp nd => .ok (synElement r c f cp nd)
   | .synX r c f cp nd rq fi rs al =>
     -- `fill_into(element, value)` of the synthetic classes fills `["fi", value]`; `reset`/`alter_sequence`
